@@ -201,3 +201,7 @@ pub fn pat_index<'a, T>(s: &'a [T], p: aho_corasick::PatternID) -> (r: &'a T)
 {
     &s[p]
 }
+
+// a RegexSet reports each matching member index once, and only indices of its patterns
+pub broadcast axiom fn axiom_regexset_hits_bound(s: &RegexSet, v: Seq<char>)
+    ensures #[trigger] regexset_hits(s, v).len() <= regexset_patterns(s).len(), regexset_patterns(s).len() <= usize::MAX;
